@@ -238,6 +238,9 @@ class Cell(NullCell):
         return result
 
     def to_boc(self, has_idx=False, hash_crc32=False, has_cache_bits=False, flags=0):
+        if has_cache_bits:
+            # the cache bits are carried by the index entries: TON's reader refuses has_cache_bits without has_idx
+            has_idx = True
         indexed = {}
         self.order(indexed)
         ordered_cells = {j: i for i, j in enumerate(indexed)}  # {root_cell: 0, cell1: 1, cell2: 2 ...}
